@@ -1,7 +1,7 @@
 """C18 — Explicit removal and vanish remove exactly their targets."""
 from ._store import run_store
 
-THEOREMS = ['remove_exact', 'removed_is_gone', 'others_stay', 'resubmit_after_remove', 'resubmit_not_deleted_by_removal', 'vanish_only_removes', 'vanish_exact', 'ephemeral_never_live']
+THEOREMS = ['remove_exact', 'removed_is_gone', 'others_stay', 'resubmit_after_remove', 'resubmit_not_deleted_by_removal', 'vanish_only_removes', 'vanish_exact', 'ephemeral_never_live', 'ephemeral_from_source']
 
 
 def run():
